@@ -59,7 +59,7 @@ MATRIX = _matrix()
 
 
 def streams(ctx):
-    return [("matrix", len(MATRIX)), ("random", ctx.scale(600, 8000)), ("shapes", ctx.scale(250, 4000))]
+    return [("matrix", len(MATRIX)), ("random", ctx.scale(1800, 10000)), ("shapes", ctx.scale(900, 6000))]
 
 
 def gen_case(ctx, stream, idx):
